@@ -23,6 +23,13 @@ PENDING = {
     "C20": "check designed (DESIGN.md sect. 4, engine S) but not built yet; not claimed until it runs",
 }
 TEXT = {
+    "C02": {
+        "engine": "N",
+        "design_ref": "DESIGN.md sect. 4 (C02), sect. 3.6, 3.7",
+        "technique": "deterministic simulation of the whole system (as C01) driven by seeded generated test-case definitions, each from its own choice tape: loaded on its own through the real loader (panic = violation, error = legal rejection), executed by the real runner against the real reference and gRPC peers over the simulated network and fake clock; failing cases confirmed three times alone, tape-minimised across fresh processes, replayable from the replay file",
+        "level_text": "Seeded generation over the deterministic fragment of the suite schema (all five stream types, 0-4/8 requests and responses incl. more responses than requests and zero requests, headers/trailers with repeated values, mixed case and -bin values, 16 error codes with empty/UTF-8/percent-worthy messages and 0-3 details, payloads from empty to 64 KiB) x config slices rotating HTTP version, protocol, codec, compression and TLS, in server mode and client mode so that reference client, reference server and both gRPC peers are exercised. Oracle: the runner's verdict is pass for every generated permutation; loading never panics. Evidence, not proof; the deciding variable is the generated input, the simulator is the deterministic execution vehicle.",
+        "level_note": "Two known findings are listed in known_findings.json (zero-request streams against the grpc-go server; request info of a full-duplex error without responses) with input-specific signatures; every other failure is reported. Header lists use one entry per name (as the corpus does).",
+    },
     "C01": {
         "engine": "N",
         "design_ref": "DESIGN.md sect. 4 (C01), sect. 3.6, 3.7",
